@@ -205,10 +205,10 @@ PROPS["C13"] = {
     "theorems": ["WhatIs.C13.no_recurse_into_empty", "WhatIs.C13.value_checks_class", "WhatIs.C13.tags_table_ok",
                  "WhatIs.C13.dump_roundtrip", "WhatIs.C13.accept_complete", "WhatIs.C13.accept_sound",
                  "WhatIs.C13.reject_trailing", "WhatIs.C13.reject_truncated", "WhatIs.C13.value_spec",
-                 "WhatIs.C13.identifier_walks_tree", "WhatIs.C13.recognised_is_dumped", "WhatIs.C13.accept_complete_walk",
+                 "WhatIs.C13.utc_shows_seconds", "WhatIs.C13.identifier_walks_tree", "WhatIs.C13.recognised_is_dumped", "WhatIs.C13.accept_complete_walk",
                  "WhatIs.DerKeys.strict_keys", "WhatIs.DerKeys.pkcs1pub_other_counts_rejected", "WhatIs.DerKeys.dsa_other_counts_rejected",
                  "WhatIs.DerKeys.pkcs1priv_other_counts_rejected"],
-    "facts": {"der.strictKeys": True, "asn1.identifierWalksTree": True, "asn1.recurseIntoEmpty": False, "asn1.valueIgnoresClass": False, "asn1.fromTagChecksClass": True, "asn1.tagCount": 33},
+    "facts": {"der.strictKeys": True, "asn1.identifierWalksTree": True, "asn1.utcShowsSeconds": True, "asn1.recurseIntoEmpty": False, "asn1.valueIgnoresClass": False, "asn1.fromTagChecksClass": True, "asn1.tagCount": 33},
     "nontrivial": nt_c13,
     "rule": "TLV trees encoded by the harness's own DER encoder: every universal primitive with boundary/ill-formed contents, "
             "non-universal primitives (context 0,2,5; application 13; private 31, 2^14, 2^31-1), all shells (incl. empty constructed) "
